@@ -342,6 +342,14 @@ class C20(Prop):
                         model_ok=False)
 
     def _gen_case(self, rnd, tier):
+        if rnd.random() < 0.005:
+            # a backlog: a thousand and more events queued before the runner is started, all due in its first cycle
+            n = rnd.choice([1003, 1250, 2100])
+            prog = [['queue', 'e'] for _ in range(n)] + [['start']]
+            prog += rnd.choice([[['queue', 'stop'], ['wait']], [['queue', 'e'], ['queue', 'stop'], ['unpause'], ['wait']]])
+            payload = {'kind': 'runner', 'execute_all': rnd.random() < 0.8, 'clients': [prog], 'limit': 4 * n + 400}
+            run_schedule(payload, rnd)
+            return Case(payload, None)
         nclients = 1 if rnd.random() < 0.75 else 2
         clients = []
         for c in range(nclients):
